@@ -11,6 +11,9 @@ What is a site (one record per STATEMENT that contains at least one of these):
   set-use                     a load of a name / attribute / dict-of-set entry that the scanner
                               inferred to be set-valued (local flow: assignments, annotations,
                               `for k, v in d.items()` over a dict of sets, `self.x` per module)
+  ordered-dedup               `dict.fromkeys(xs)`: duplicate removal in order of FIRST OCCURRENCE -- the order-preserving
+                              replacement of `list(set(xs))`; recorded so that the model's claim about the statement is
+                              tied to its text (reverting it to a set produces a new, unmodelled set site)
   id-call                     builtin `id(x)`
   ufl-id-call                 `x.ufl_id()`            (UFL's global per-class object counter)
   count-call                  `x.count()` (no args)   (UFL's global Index/Coefficient counters)
@@ -545,6 +548,8 @@ class ModuleScan:
                     elif fn == "count" and self._imports_itertools_count():
                         self.add(n, "itertools-count")
                 elif isinstance(n.func, ast.Attribute):
+                    if fn == "fromkeys" and isinstance(n.func.value, ast.Name) and n.func.value.id in ("dict", "OrderedDict"):
+                        self.add(n, "ordered-dedup")
                     if fn == "ufl_id" and not n.args:
                         self.add(n, "ufl-id-call")
                     elif fn == "count" and not n.args and not n.keywords:
